@@ -159,8 +159,8 @@ pub fn generate_random_points<T: CoordinateScalar + SampleUniform, const D: usiz
     if std::env::var_os("DELAUNAY_DEBUG_UNUSED_IMPORTS").is_some() {
         eprintln!("point_generation::generate_random_points called (n_points={n_points}, D={D})");
     }
-    // Validate range
-    if range.0 >= range.1 {
+    // Validate range (the sampler needs a finite width: `max - min` must not overflow)
+    if range.0 >= range.1 || !(range.1 - range.0).is_finite() {
         return Err(RandomPointGenerationError::InvalidRange {
             min: format!("{:?}", range.0),
             max: format!("{:?}", range.1),
@@ -232,8 +232,8 @@ pub fn generate_random_points_seeded<T: CoordinateScalar + SampleUniform, const 
         );
     }
 
-    // Validate range
-    if range.0 >= range.1 {
+    // Validate range (the sampler needs a finite width: `max - min` must not overflow)
+    if range.0 >= range.1 || !(range.1 - range.0).is_finite() {
         return Err(RandomPointGenerationError::InvalidRange {
             min: format!("{:?}", range.0),
             max: format!("{:?}", range.1),
@@ -325,7 +325,7 @@ where
     //
     // We treat `radius` as the half-width of the axis-aligned bounding box `[-radius, +radius]^D`.
     // Rejection sampling within that cube yields a uniform distribution in the inscribed ball.
-    if !radius.is_finite() || radius <= T::zero() {
+    if !radius.is_finite() || radius <= T::zero() || !(radius + radius).is_finite() {
         return Err(RandomPointGenerationError::InvalidRange {
             min: format!("{:?}", -radius),
             max: format!("{radius:?}"),
@@ -596,8 +596,8 @@ pub fn generate_poisson_points<T: CoordinateScalar + SampleUniform, const D: usi
     use rand::RngExt;
     use rand::SeedableRng;
 
-    // Validate bounds
-    if bounds.0 >= bounds.1 {
+    // Validate bounds (the sampler needs a finite width: `max - min` must not overflow)
+    if bounds.0 >= bounds.1 || !(bounds.1 - bounds.0).is_finite() {
         return Err(RandomPointGenerationError::InvalidRange {
             min: format!("{:?}", bounds.0),
             max: format!("{:?}", bounds.1),
